@@ -128,6 +128,16 @@ STRENGTHENED = """
 | C15-h (results of one block dropped) | feed results carried no heights | heights as a node sets them, several transactions per block, one header per block |
 | C16-h (merged subscriptions drop overtaken transactions) | only publishEvents was driven | 40 % of the feed runs drive events.Publish with a stand-in node client; goroutines created by errgroup are ordered by the names of the channels they select on |
 | C19-g (validation remembered in process memory) | **exit 2**: the violation depended on what the worker process had executed before and did not reproduce in a fresh process | replay files record the worker's position; a replay that shows nothing in a fresh process is repeated after the preceding runs of that worker and reported with a WARM-PROCESS note |
+| C15-j (Publish refactored into methods) | **every provsim check ended with exit 2**: the build overlay called the unexported `publishEvents`, which no longer existed | no overlay on the events package any more: the harness uses the exported module parsers (`sim/evparse`) and drives `events.Publish` only |
+| C15-i (bus shutdown over the live map) | the instrumenter rewrote `for k := range m` into a loop over a snapshot of the keys, which hides exactly the skipped-entry semantics the change depends on | rewritten map ranges skip entries removed during the iteration; subscribers must have stopped once their own or the bus's Close returned |
+| C17-j (keeper cache survives rolled-back transactions) | listings were asked of a querier the harness built itself over the store | after every commit the certificate pairs named by the block's transactions (accepted or rejected) are looked up through the application's own query router |
+| C01-j (export aliases amounts) / C09-j (revoked certificates valid after import) | exported records were never compared with the stored ones; only the escrow section was round-tripped | exported escrow records are compared with the store record by record; the certificate section is round-tripped for C17 |
+| C02-i (only a payee's first payment is sent) | C02 looked at the records only (C01 caught it) | C02 compares every actor's bank receipts with what the records of the transaction say was paid out |
+| C12-i (status matched by group) | status events always belonged to an outstanding reservation's order | late status events of another order sequence of the same group |
+| C13-j (closed bid ignored at catch-up) | a closed bid left no record in the chain model | bid records persist after close; a create-bid for an order the provider ever bid on is a second bid; a closed bid found at catch-up is no close-bid obligation |
+| C14-i (teardown overtakes the deploy at shutdown) | shutdown only happened at the end of a history | a quarter of the Layer-1 histories contain a provider shutdown; afterwards only the safety clauses are judged |
+| C16-i (feed drops repeated events) | caught by the C15 feed scenario once results may repeat an identical event | - |
+| not reached: C07-i (data race with a concurrent Simulate goroutine: real threads inside the application are outside the simulator), C07-j (sync.Pool contents depend on the collector; a child process that collects before every transaction is in place but the history is rare), C10-i (needs a hostname service slower than 1 s), C14-j (start-up path with existing workloads is not simulated), C16-j (needs a failing bank refund, which no chain history produces) | | |
 | C20-a (wait on Done()) / C10-b (updates dropped during fetch) | deployment-closed rarely hit an in-flight fetch; fetch answers were always computed at completion time; no submission of the previous version | close is 4x more likely while a fetch is in flight; 40 % of fetch answers reflect the state at issue time; new submission kind "previous-version" |
 """
 
